@@ -16,6 +16,7 @@ class CompactRun(IndexRun):
         self.tool_db = None
         self.mined = set()
         self.overflow = False
+        self.overflow_at = None      # number of steps recorded when the run left the claim (everything before is judged)
         # the three scripts whose histories grow sit in the first prefix, in the one right after it (so that a batch
         # ends exactly before a populated prefix) and in the very last prefix
         self.hashx_prefix = {bytes(SCRIPTS[4]): b'\x00\x00', bytes(SCRIPTS[2]): b'\x00\x01', bytes(SCRIPTS[3]): b'\xff\xff'}
@@ -130,7 +131,9 @@ class CompactRun(IndexRun):
 
     def mine_for(self, op):
         cb = [(self.MAP.get(s, 4), 50) for s in sorted(op.get('scripts') or [1])]
-        self.apply_env({'e': 'mine', 'txs': [], 'cb': cb})
+        # a regular transaction rides along when one can be mined: a script then has several entries from one block, which
+        # compaction with small rows spreads over several rows (a later reorganisation has to walk back over them)
+        self.apply_env({'e': 'mine', 'txs': self.next_slots(), 'cb': cb})
 
     def flushed_to(self, h):
         return lambda: self.db.state.height >= h and self.bp.state.height >= h
@@ -210,9 +213,13 @@ class CompactRun(IndexRun):
                 if self.tool_db is not None:
                     h = self.tool_db.history
                     ids = [int.from_bytes(key[-2:], 'big') for key, _v in h.db.iterator() if len(key) == 13]
-                    if h.comp_cursor != -1 and ids and max(ids) > h.flush_count:
-                        # abandoned with more compacted rows than the flush count: outside the claim
+                    if ids and (max(ids) > self.tool_db.state.flush_count or (h.comp_cursor != -1 and max(ids) > h.flush_count)):
+                        # abandoned (or killed before set_flush_count) with more compacted rows for some script than there
+                        # have been flushes: only a toy database with rows of one or two entries gets there; the next
+                        # start takes the high row ids for an unclean shutdown.  Outside the claim (Compaction.tla: overflow)
                         self.overflow = True
+                        if self.overflow_at is None:
+                            self.overflow_at = len(self.steps)
                     self.close_tool()
         if self.tool_db is not None:
             self.close_tool()
@@ -236,4 +243,5 @@ def run_compaction(plan, **kw):
     r = CompactRun(plan, **kw)
     t = r.run()
     t['overflow'] = r.overflow
+    t['overflow_at'] = r.overflow_at
     return t
